@@ -1,7 +1,7 @@
 """Real rpyc servers for C16 / C17 (DESIGN.md 6.4).
 
 A *case* is (kind, transport, auth, nb, ops): kind in threaded | pool | oneshot | forking, transport in
-tcp | unix, ops = the token strings of lean/Driver/Server.lean (c<k>:<g|b|s|r>, c<k>:g:<j>, m<k>, h<k>, k<k>:<g|b>, p<k>, l<k>,
+tcp | unix, ops = the token strings of lean/Driver/Server.lean (c<k>:<g|b|s|r>, c<k>:g:<j>, m<k>, h<k>, w<k>, k<k>:<g|b>, p<k>, l<k>,
 o<k>:<n>, d<k>:<n>, g<k>, a<k>, z<k>, X, i<k>:<hbt..>, r<k>:<hex>).  `Session` starts the real server (threaded / pool / one-shot in this
 process on port 0 or a temp unix path; the forking server in a subprocess, because fork and SIGCHLD want a
 main thread of their own), executes one op at a time with real client sockets, and renders what can be
@@ -92,8 +92,9 @@ class Obj(object):
         return "obj-of-%r" % (self.owner,)
 
 
-def make_service(record):
-    """a service CLASS (so that the server instantiates it per connection); `record(kind, inst, conn)` is the hook sink"""
+def make_service(record, ctor_gate=None):
+    """a service CLASS (so that the server instantiates it per connection); `record(kind, inst, conn)` is the hook sink;
+    `ctor_gate()` -> an Event the constructor waits for, or None (a service whose per-session set-up takes its time)"""
     import rpyc
 
     class VerifService(rpyc.Service):
@@ -101,9 +102,19 @@ def make_service(record):
             self.marks = []
             self.lent = []
             self.gate = None
+            self.conn = None
+            g = ctor_gate() if ctor_gate is not None else None
+            if g is not None:
+                g.wait(30)
 
         def on_connect(self, conn):
+            self.conn = conn
             record("c", self, conn)
+
+        def exposed_whoami(self):
+            # the credentials and the peer address THIS connection was configured with
+            cfg = self.conn._config
+            return cfg["credentials"], peer_key(cfg["endpoints"][1])
 
         def on_disconnect(self, conn):
             record("d", self, conn)
@@ -146,7 +157,11 @@ def authenticator(sock):
     data = sock.recv(1)
     if data != b"A":
         raise AuthenticationError("wrong credential %r" % (data,))
-    return sock, "cred-A"
+    return sock, "cred-A:" + peer_key(sock.getpeername())       # credentials of this client and nobody else
+
+
+def before_closed_hook(root):
+    """a `before_closed` entry for the server's protocol_config (an audit trail, say): does not touch the peer itself"""
 
 
 def peer_key(addr):
@@ -263,11 +278,18 @@ def uninstall_frame_counter():
 # ------------------------------------------------------------------------------------------ backends
 class InProcBackend(object):
     """threaded / pool / one-shot server in this process"""
-    def __init__(self, kind, transport, auth, nb, tmpdir):
+    def __init__(self, kind, transport, auth, nb, tmpdir, opts=()):
         from rpyc.utils import server as S
         self.kind, self.transport = kind, transport
         self.hooks = []          # (kind, peer, instance)   instance objects are kept alive: ids are never reused
         self.lock = threading.Lock()
+        self.pending_gates = []  # Events waiting for the next service constructor(s) to pick them up
+
+        def ctor_gate():
+            try:
+                return self.pending_gates.pop(0)
+            except IndexError:
+                return None
 
         def record(what, inst, conn):
             try:
@@ -276,9 +298,11 @@ class InProcBackend(object):
                 peer = "?"
             with self.lock:
                 self.hooks.append((what, peer, inst))
-        self.service = make_service(record)
+        self.service = make_service(record, ctor_gate)
         cls = dict(threaded=S.ThreadedServer, pool=S.ThreadPoolServer, oneshot=S.OneShotServer)[kind]
         kw = dict(auto_register=False, logger=quiet_logger())
+        if "bc" in opts:
+            kw["protocol_config"] = {"before_closed": before_closed_hook}
         if auth:
             kw["authenticator"] = authenticator
         if kind == "pool":
@@ -358,15 +382,17 @@ class InProcBackend(object):
 
 class ForkBackend(object):
     """forking server in a subprocess (this file run with --forking-child), driven over its stdin/stdout"""
-    def __init__(self, kind, transport, auth, nb, tmpdir):
+    def __init__(self, kind, transport, auth, nb, tmpdir, opts=()):
         self.kind, self.transport = kind, transport
+        self.pending_gates = []
         self.hookfile = os.path.join(tmpdir, "hooks.txt")
         open(self.hookfile, "w").close()
         path = os.path.join(tmpdir, "srv.sock")
         env = dict(os.environ)
         env["RPYC_REPO"] = os.environ.get("RPYC_REPO", "/repo")
         self.proc = subprocess.Popen([sys.executable, os.path.abspath(__file__), "--forking-child", transport, path,
-                                      "T" if auth else "F", self.hookfile], stdin=subprocess.PIPE,
+                                      "T" if auth else "F", self.hookfile, ",".join(sorted(opts)) or "-"],
+                                     stdin=subprocess.PIPE,
                                      stdout=subprocess.PIPE, stderr=subprocess.DEVNULL, env=env, text=True,
                                      start_new_session=True)     # its own process group: children die with it
         info = self._read()
@@ -460,8 +486,9 @@ def _children_of(pid):
 
 
 def forking_child_main(argv):
-    """python servers.py --forking-child <tcp|unix> <path> <T|F> <hookfile>"""
-    transport, path, auth, hookfile = argv
+    """python servers.py --forking-child <tcp|unix> <path> <T|F> <hookfile> <options|->"""
+    transport, path, auth, hookfile, opts = argv
+    opts = [] if opts == "-" else opts.split(",")
     sys.path.insert(0, os.environ.get("RPYC_REPO", "/repo"))
     from rpyc.utils.server import ForkingServer
 
@@ -487,6 +514,8 @@ def forking_child_main(argv):
     kw = dict(auto_register=False, logger=quiet_logger())
     if auth == "T":
         kw["authenticator"] = authenticator
+    if "bc" in opts:
+        kw["protocol_config"] = {"before_closed": before_closed_hook}
     out = sys.stdout
     base = nfds()
     try:
@@ -634,8 +663,12 @@ class Client(object):
     def wrap(self):
         if self.conn is None:
             import rpyc
+            # the propagate_* switches off: an exception of ANY class raised while this client serves a request of the
+            # server (a hostile client's choice) is sent to the server instead of ending the harness
             self.conn = rpyc.connect_stream(rpyc.SocketStream(self.sock),
-                                            config=dict(sync_request_timeout=self.sess.call_timeout))
+                                            config=dict(sync_request_timeout=self.sess.call_timeout,
+                                                        propagate_KeyboardInterrupt_locally=False,
+                                                        propagate_SystemExit_locally=False))
         return self.conn
 
     def call(self, what, arg=None):
@@ -677,6 +710,11 @@ class Client(object):
                     return "keyerr"
                 except AttributeError:
                     return "resolved"        # found, then refused by the attribute policy: the reference did resolve
+            if what == "whoami":
+                # which credentials and peer address does the server-side connection of THIS client carry
+                res = conn.sync_request(_c.HANDLE_CALLATTR, conn.root, "whoami", (), ())
+                want = ("cred-A:" + self.peer if self.sess.auth else None, self.peer)
+                return "pong" if tuple(res) == want else "wrong:%r(expected %r)" % (tuple(res), want)
             if what == "arm":
                 res = conn.sync_request(_c.HANDLE_CALLATTR, conn.root, "arm", (), ())
                 return "done" if res == "armed" else "wrong:%r" % (res,)
@@ -688,16 +726,33 @@ class Client(object):
                 n, m = arg
                 name = POISON_NAMES[n % len(POISON_NAMES)]
                 answer = POISON_ANSWERS[m % len(POISON_ANSWERS)]
-                conn._HANDLERS[_c.HANDLE_INSPECT] = lambda _self, _id_pack, _a=answer: _a
-                mod, _, cls_name = name.rpartition(".")
-                fake = type(cls_name, (object,), {"__module__": mod})()
+                if not hasattr(self, "orig_inspect"):
+                    self.orig_inspect = conn._HANDLERS[_c.HANDLE_INSPECT]
+                attrs = {"__module__": name.rpartition(".")[0]}
+                if isinstance(answer, Raise) and answer.where == "callback":
+                    # describes its object truthfully, then answers the server's CALL on it with an exception reply
+                    conn._HANDLERS[_c.HANDLE_INSPECT] = self.orig_inspect
+
+                    def thrower(_self, *a, _e=answer.exc):
+                        raise _e("from a hostile client")
+                    attrs["__iter__"] = thrower
+                elif isinstance(answer, Raise):
+                    # answers the server's class inspection with an exception reply naming that class
+                    def raising(_self, _id_pack, _e=answer.exc):
+                        raise _e("from a hostile client")
+                    conn._HANDLERS[_c.HANDLE_INSPECT] = raising
+                else:
+                    conn._HANDLERS[_c.HANDLE_INSPECT] = lambda _self, _id_pack, _a=answer: _a
+                fake = type(name.rpartition(".")[2], (object,), attrs)()
                 self.refs.append(fake)
                 try:
                     conn.sync_request(_c.HANDLE_CALLATTR, conn.root, "consume", ("list", fake, 0), ())
                 except EOFError:
                     raise
-                except Exception:  # noqa   (the server is expected to answer with an exception)
-                    pass
+                except TimeoutError:
+                    return "timeout"
+                except BaseException:  # noqa   (the server is expected to answer with an exception - of whatever class it
+                    pass                #         was told: the reply may well be a KeyboardInterrupt look-alike)
                 return "-"
             if what == "drop":
                 # let go of a lent object: one HANDLE_DEL request (the proxy itself is kept, so its finalizer stays quiet)
@@ -830,9 +885,21 @@ POISON_NAMES = ["builtins.range", "builtins.dict_keys", "builtins.dict_values", 
                 "builtins.zip", "builtins.enumerate", "builtins.reversed", "builtins.bytearray_iterator",
                 "builtins.range_iterator", "builtins.generator", "builtins.memoryview", "builtins.function",
                 "builtins.dict_keyiterator", "servers.Obj", "servers.VerifService", "builtins.list_reverseiterator",
-                "builtins.zip", "builtins.range"]
+                "builtins.zip", "builtins.range", "evil.Thing", "evil.other.Thing"]
+class Raise(object):
+    """a hostile answer to a request the SERVER makes while it handles the client's own request: an exception reply naming
+    `exc`, to the class inspection (`where` = "inspect") or to the call on the object (`where` = "callback")"""
+    def __init__(self, where, exc):
+        self.where, self.exc = where, exc
+
+
 POISON_ANSWERS = [(), 5, (("x",),), (("__getattribute__", "d"), ("__class__", "d"), ("__reduce__", "d"), ("__del__", "d")),
-                  (("__iter__", None),), ()]
+                  (("__iter__", None),), (),
+                  Raise("inspect", KeyboardInterrupt), Raise("inspect", SystemExit), Raise("inspect", GeneratorExit),
+                  Raise("inspect", BaseException), Raise("callback", KeyboardInterrupt), Raise("callback", SystemExit),
+                  Raise("callback", GeneratorExit), Raise("inspect", StopIteration), Raise("callback", BaseException)]
+FIRST_RAISE = 6          # index of the first exception answer
+FOREIGN_NAMES = [14, 15, 19, 20]   # indices of names that are in no process-wide table: the server has to ask
 
 
 def ping_frame(seq=7):
@@ -852,8 +919,13 @@ ITEM_BYTES = {
 
 # ------------------------------------------------------------------------------------------ session
 class Session(object):
-    def __init__(self, kind, transport, auth, nb, call_timeout=CALL_TIMEOUT):
+    def __init__(self, kind, transport, auth, nb, call_timeout=CALL_TIMEOUT, opts=()):
+        """opts: "bc" = the server's protocol_config carries a `before_closed` hook; "gate" = a client connecting with `s`
+        sends GOOD credentials at once and it is the service's constructor that waits (per-session set-up that takes its
+        time), until `k<k>:g` lets it finish - to the model the same bookkeeping state as an authenticator that waits"""
         self.kind, self.transport, self.auth, self.nb = kind, transport, auth, nb
+        self.opts = tuple(opts or ())
+        self.ctor_gates = {}
         self.call_timeout = call_timeout
         self.tmpdir = tempfile.mkdtemp(prefix="rpycverif-")
         self.clients = {}
@@ -867,9 +939,9 @@ class Session(object):
         threading.excepthook = lambda args: None       # serving threads die of hostile input by design
         try:
             if kind == "forking":
-                self.backend = ForkBackend(kind, transport, auth, nb, self.tmpdir)
+                self.backend = ForkBackend(kind, transport, auth, nb, self.tmpdir, self.opts)
             else:
-                self.backend = InProcBackend(kind, transport, auth, nb, self.tmpdir)
+                self.backend = InProcBackend(kind, transport, auth, nb, self.tmpdir, self.opts)
         except Exception:
             threading.excepthook = self.prev_hook
             shutil.rmtree(self.tmpdir, ignore_errors=True)
@@ -909,10 +981,20 @@ class Session(object):
                         continue
                     os.close(d)
                     break
+            gate = None
+            if cred == "s" and "gate" in self.opts:
+                gate = threading.Event()
+                self.backend.pending_gates.append(gate)
+                self.ctor_gates[k] = gate
+                cred = "g"
             try:
                 res = c.connect(cred)
                 if res == "ok":
                     self.clients[k] = c
+                if gate is not None and res == "ok":
+                    # the next operation starts only when THIS client's serving thread has taken the gate
+                    if wait_for(lambda: gate not in self.backend.pending_gates, 5.0) is None:
+                        raise Infra("the service constructor of client %d never started" % k)
                 if res == "ok" and len(parts) == 3:
                     wait_for(lambda: self.server_fd(c.peer) is not None, 3.0)
             finally:
@@ -961,6 +1043,11 @@ class Session(object):
             if t == "i":
                 c.send_raw(b"".join(ITEM_BYTES[x]() for x in rest.split(":")[1]))
                 return "-"
+        if t == "w":
+            c = self.clients.get(int(rest))
+            if c is None or not c.open:
+                return "skip"
+            return c.call("whoami")
         if t == "u":
             k, n = rest.split(":")
             c = self.clients.get(int(k))
@@ -990,6 +1077,9 @@ class Session(object):
             c = self.clients.get(int(k))
             if c is None or not c.open:
                 return "skip"
+            if int(k) in self.ctor_gates:
+                self.ctor_gates[int(k)].set()        # the service's constructor finishes
+                return "-"
             c.send_creds(cred == "g")
             return "-"
         if t == "r":
@@ -1073,6 +1163,8 @@ class Session(object):
             time.sleep(INTERVAL)
 
     def close(self):
+        for g in list(self.ctor_gates.values()) + list(getattr(self.backend, "pending_gates", [])):
+            g.set()
         try:
             for what, peer, inst in self.backend.hook_table():
                 if not isinstance(inst, str) and getattr(inst, "gate", None) is not None:
@@ -1100,10 +1192,10 @@ class Session(object):
             shutil.rmtree(self.tmpdir, ignore_errors=True)
 
 
-def run_case(kind, transport, auth, nb, toks, expect=None, ceiling=CEILING, call_timeout=CALL_TIMEOUT):
+def run_case(kind, transport, auth, nb, toks, expect=None, ceiling=CEILING, call_timeout=CALL_TIMEOUT, opts=()):
     """returns (lines, agreed_index or None): the observed lines, and the index of the first op whose expected state was
     not reached within the ceiling (the case stops there)"""
-    sess = Session(kind, transport, auth, nb, call_timeout)
+    sess = Session(kind, transport, auth, nb, call_timeout, opts)
     lines = []
     try:
         for i, tok in enumerate(toks):
